@@ -145,3 +145,7 @@ func SameAs(snapshot, ptr interface{}) bool
 // Quiesce lets every other scheduled thread run until it has finished or is
 // blocked for good.
 func Quiesce()
+
+// OmitAVP: the AVP of the given member ("ServiceRating.ConsumedUnits") is
+// absent from the Diameter message built by Marshal.
+func OmitAVP(msg interface{}, member string)
